@@ -236,6 +236,17 @@ impl Scenario for C12 {
             acts.push(Act::Emit { var: 0 });
             return (cfg, acts);
         }
+        if fam == "cpc" && rng.chance(1, 60) {
+            // spot run: a sparse sketch whose coupons all sit in the highest columns (each pair takes the
+            // longest column code), serialized after every coupon: buffer sizing of the pair coder
+            cfg.a = rng.range(8, 14);
+            let col = *rng.pick(&[63u64, 63, 62, 56, 40]);
+            for _ in 0..rng.range(8, 70) {
+                acts.push(Act::Raw { vals: vec![(rng.next_u64() << 6) | col] });
+                acts.push(Act::Emit { var: 0 });
+            }
+            return (cfg, acts);
+        }
         if fam == "theta" && rng.chance(1, 120) {
             // spot run with more than 65535 retained entries: the compressed form then needs a
             // three-byte entry count (nominal size 2^16 or 2^17, exact mode up to 2k entries)
